@@ -232,6 +232,7 @@ def oracle(c, io):
     return None
 
 def classify(c, io):
+    if io.startswith('HARNESS-ERROR'): return 'harness-error'
     recs = io.split('|')
     peak = max(int(r.split(';')[2]) for r in recs)
     ex = [r.split(';')[0] for r in recs if r.split(';')[0] not in ('-', 'F')]
